@@ -21,11 +21,31 @@ impl Oracle for TamperOracle {
 	}
 	fn observe(&mut self, _w: &World, obs: &[Obs]) -> Result<(), Failure> {
 		let mut in_tamper_step = false;
+		let mut in_cs_step: Option<usize> = None;
 		for o in obs {
 			match o {
 				Obs::Api { what, .. } if what == "tamper-raa" => {
 					self.armed = true;
 					in_tamper_step = true;
+				},
+				Obs::Api { what, node, .. } if what == "tamper-cs" => {
+					self.armed = true;
+					in_tamper_step = true;
+					in_cs_step = Some(*node);
+				},
+				Obs::Persist { node, rec } if in_cs_step == Some(*node) => {
+					if rec.steps.iter().any(|s| s.name == "LatestHolderCommitmentTXInfo" || s.name == "LatestHolderCommitment") {
+						return Err(Failure::new(
+							"tampered-commitment-rejected",
+							format!("node {} stored as its latest commitment one that its peer had not fully signed (a signature of the commitment_signed was invalid)", node),
+						));
+					}
+				},
+				Obs::Sent { from, wire: Wire::Raa(_), .. } if in_cs_step == Some(*from) => {
+					return Err(Failure::new(
+						"tampered-commitment-rejected",
+						format!("node {} revoked its previous commitment in answer to a commitment_signed carrying an invalid signature: it does not hold a fully signed newer commitment", from),
+					));
 				},
 				Obs::Persist { node, rec } if in_tamper_step => {
 					if rec.steps.iter().any(|s| s.name == "CommitmentSecret") {
@@ -42,9 +62,9 @@ impl Oracle for TamperOracle {
 			}
 		}
 		if in_tamper_step {
-			crate::runner::witness("c05-tampered-raa-delivered");
+			crate::runner::witness(if in_cs_step.is_some() { "c05-tampered-commitment-delivered" } else { "c05-tampered-raa-delivered" });
 			if !self.error_seen {
-				return Err(Failure::new("tampered-raa-rejected", "corrupted revoke_and_ack did not produce a channel error".to_string()));
+				return Err(Failure::new("tampered-raa-rejected", "corrupted revoke_and_ack / commitment_signed did not produce a channel error".to_string()));
 			}
 		}
 		Ok(())
@@ -210,6 +230,20 @@ pub fn scenarios(tier: Tier) -> Vec<C05Scn> {
 				restart: true,
 			});
 		}
+		// corrupted commitment_signed (the commitment signature or any one HTLC signature replaced) at every
+		// commitment_signed of a flow whose commitments carry up to three HTLCs
+		v.push(C05Scn {
+			name: format!("{}-tamper-cs", n),
+			ct,
+			ops: vec![send(0, 1, 50_000_000, ClaimPolicy::Claim), send(0, 1, 40_000_000, ClaimPolicy::Claim), send(1, 0, 20_000_000, ClaimPolicy::Claim)],
+			ops_first: true,
+			dev: Deviations { tamper_commit: Some(1), reorder: None, early_op: None, complete_reorder: None, ..Deviations::default() },
+			k: 1,
+			max_disconnects: 0,
+			force: false,
+			tamper: true,
+			restart: false,
+		});
 		// corrupted revoke_and_ack at every RAA of the flow
 		v.push(C05Scn {
 			name: format!("{}-tamper-raa", n),
@@ -261,6 +295,7 @@ pub fn run(args: &Args) -> i32 {
 				"c05-sign-holder-commitment",
 				"c05-broadcast-holder-commitment",
 				"c05-tampered-raa-delivered",
+				"c05-tampered-commitment-delivered",
 			],
 		);
 	} else {
